@@ -153,3 +153,29 @@ pub fn add_integrity(msg: &mut Vec<u8>, key: &[u8], sha256: bool, trunc: usize) 
     msg[2] = (l >> 8) as u8;
     msg[3] = l as u8;
 }
+
+/// Structure-only walk (tiling by padded TLVs, no ordering rules, no CRC): the attributes and the C10 exposure rule.
+/// Used to judge exposure on buffers the real parser accepts although the reference refuses them.
+pub fn walk_lenient(b: &[u8]) -> Option<(Vec<RefAttr>, Vec<usize>)> {
+    if b.len() < 20 { return None; }
+    let mut attrs = vec![];
+    let mut o = 20;
+    while o < b.len() {
+        if o + 4 > b.len() { return None; }
+        let ty = be16(b, o);
+        let len = be16(b, o + 2) as usize;
+        if o + 4 + padded(len) > b.len() { return None; }
+        attrs.push(RefAttr { ty, off: o + 4, len });
+        o += 4 + padded(len);
+    }
+    let mut exposed = vec![];
+    let mut st = 0;
+    for (i, a) in attrs.iter().enumerate() {
+        match st {
+            0 => { exposed.push(i); st = if a.ty == MI { 1 } else if a.ty == MI256 { 2 } else { 0 }; }
+            1 if a.ty == MI256 => { exposed.push(i); st = 2; }
+            _ => { if a.ty == FP { exposed.push(i); } st = 2; }
+        }
+    }
+    Some((attrs, exposed))
+}
